@@ -38,7 +38,11 @@ RULE = ("recipes of .rtdc files: n in {0,1,2,..,13}, 1-5 features of kinds "
         "(fixed/vlen/empty, lines longer than 100 bytes, UTF-8), compound "
         "tables with attributes, file/mapped/internal basins, software-version "
         "scenarios triggering defective-feature markers, previous command "
-        "logs; tasks repack(strip_basins, strip_logs), compress, "
+        "logs; inputs without stored scalar features, float32/int scalars, "
+        "attributes on logs and basin definitions, empty tables and empty "
+        "image/trace datasets, a feature in events and in basin_events, "
+        "defect scenarios from DEFECT_TABLE (wide ROI, float32 time + frame, "
+        "dclab_issue_141); tasks repack(strip_basins, strip_logs), compress, "
         "condense(ancillary, basin features), rtdc_copy(all/scalar/none/list);"
         " each task is also applied to its own output. Non-trivial: at least "
         "one dataset takes the re-compression path; distinct = different "
@@ -50,12 +54,21 @@ TRUSTED_BASE = [
     "per-dimension intervals); compared with iter_chunks on every run and "
     "with the odometer model on a swept finite domain in Coq",
     "oracle functions of the model: feature_exists/scalar_feature_exists, the "
-    "basinmap regular expression, DEFECTIVE_FEATURES evaluated on the source, "
-    "md5 name of a rewritten basin, ds.features_loaded/basin/ancillary and "
-    "ds[feat] for condense (hypotheses: scalar -> exists, basinmap -> exists)",
+    "basinmap regular expression, md5 name of a rewritten basin, "
+    "ds.features_loaded/basin/ancillary and ds[feat] for condense; the "
+    "defective-feature markers are modelled (defective_code over the facts "
+    "the harness parses from the file itself) and judged by a hand-written "
+    "reference + literal table, not by feat_defect.py; not modelled there: "
+    "the 'shapein-acquisition' log branch",
+    "C08_second_copy_changes_no_data: hypothesis 'no feature of the first "
+    "output is marked defective' (counted per repack case as "
+    "second-copy-hypothesis-violated when false)",
+    "'the input is never modified' is judged by sha256 only (no theorem)",
     "RTDCWriter.store_feature/store_log/write_text store what they are given "
-    "(C01); values of completed min/max/mean attributes (C20)",
-    "the tdms reader (tdms2rtdc is compared with it, not modelled)",
+    "(C01); completed min/max/mean attributes are opaque in the model and "
+    "recomputed with numpy by the oracle",
+    "the tdms reader incl. imageio (tdms2rtdc is compared with it; its event "
+    "selection and export are modelled: tdms_kept/tdms_export)",
     "md5 names of rewritten internal basins (hypotheses rekey_inj, "
     "rekey_fresh of C08_copy_preserves_basin_definitions): injective and "
     "never the name of a basin definition of the source",
@@ -96,6 +109,148 @@ SCALARS = ["deform", "area_um", "pos_x", "pos_y", "bright_avg", "aspect",
            "size_x", "size_y", "userdef1", "userdef2", "time"]
 SOFTS = ["verifgen 1.0", "ShapeIn 2.0.6", "ShapeIn 2.0.7",
          "ShapeIn 2.0.5 | dclab 0.30.0", "ShapeIn 2.1.0 | dclab 0.48.0"]
+
+
+DEFECT_NAMES = ("aspect", "inert_ratio_cvx", "inert_ratio_prnc",
+                "inert_ratio_raw", "tilt", "time", "volume")
+
+
+def ref_version(text):
+    """leading numeric components of a version string as a 3-tuple"""
+    m = re.match(r"^\s*(\d+)(?:\.(\d+))?(?:\.(\d+))?", text)
+    if not m:
+        return None
+    return tuple(int(x) if x else 0 for x in m.groups())
+
+
+def ref_defective(h5):
+    """Hand-written reference (from the documented rules, NOT calling
+    dclab.rtdc_dataset.fmt_hdf5.feat_defect) of the stored features a reader
+    must ignore: set of feature names."""
+    sv = h5.attrs.get("setup:software version", "")
+    if isinstance(sv, bytes):
+        sv = sv.decode("utf-8")
+    sv = str(sv)
+    ev = h5.get("events", {})
+    logs = h5.get("logs", {})
+    pipeline = [x.strip() for x in sv.split("|")]
+    last_dclab = None
+    if sv and pipeline[-1].startswith("dclab"):
+        last_dclab = ref_version(pipeline[-1][len("dclab"):])
+    out = set()
+    # aspect: wrong cast in exactly these two Shape-In versions
+    if sv in ("ShapeIn 2.0.6", "ShapeIn 2.0.7"):
+        out.add("aspect")
+    # time: can be recomputed from frame and frame rate; float32 is useless,
+    # Shape-In data last written by dclab < 0.47.6 is float32 in disguise
+    rate = h5.attrs.get("imaging:frame rate", 0)
+    if "frame" in ev and rate != 0 and "time" in ev:
+        if ev["time"].dtype.kind == "f" and ev["time"].dtype.itemsize == 4:
+            out.add("time")
+        elif "ShapeIn" in sv and last_dclab is not None \
+                and last_dclab < (0, 47, 6):
+            out.add("time")
+    # volume: wrong until dclab 0.36.1 unless the scripted repair was logged
+    if "dclab_issue_141" not in logs and last_dclab is not None \
+            and last_dclab < (0, 37, 0):
+        out.add("volume")
+    # inertia ratios / tilt: integer overflow for wide ROIs until 0.48.2
+    if h5.attrs.get("imaging:roi size x", 0) > 500 \
+            and last_dclab is not None and last_dclab < (0, 48, 3):
+        out.update(["inert_ratio_prnc", "tilt"])
+        first = pipeline[0]
+        if first.startswith("ShapeIn"):
+            si = ref_version(first[len("ShapeIn"):])
+            if si is None or si < (2, 0, 5):
+                out.update(["inert_ratio_raw", "inert_ratio_cvx"])
+        else:
+            out.update(["inert_ratio_raw", "inert_ratio_cvx"])
+    return set(x for x in out if x in ev)
+
+
+DEFECT_CODES = {"aspect": 1, "inert_ratio_cvx": 2, "inert_ratio_prnc": 3,
+                "inert_ratio_raw": 4, "tilt": 5, "time": 6, "volume": 7}
+
+
+def defect_facts(h5):
+    """the facts Model/C08.v [dfacts] abstracts a file to (own parsing of the
+    software version string), rendered as a Coq term"""
+    sv = h5.attrs.get("setup:software version", "")
+    if isinstance(sv, bytes):
+        sv = sv.decode("utf-8")
+    sv = str(sv)
+    pipeline = [x.strip() for x in sv.split("|")]
+    last = ref_version(pipeline[-1][5:]) if sv and \
+        pipeline[-1].startswith("dclab") else None
+    first = ref_version(pipeline[0][7:]) if pipeline[0].startswith("ShapeIn") \
+        else None
+    ev = h5.get("events", {})
+
+    def opt(v):
+        return "None" if v is None else "(Some (%d, %d, %d))" % v
+    return "(mkFacts %s %s %s %s %s %s %s %s %s)" % (
+        common.blit(sv in ("ShapeIn 2.0.6", "ShapeIn 2.0.7")),
+        common.blit("ShapeIn" in sv), opt(last), opt(first),
+        common.blit("dclab_issue_141" in h5.get("logs", {})),
+        common.blit("frame" in ev),
+        common.blit(h5.attrs.get("imaging:frame rate", 0) != 0),
+        common.blit("time" in ev and ev["time"].dtype.kind == "f"
+                    and ev["time"].dtype.itemsize == 4),
+        common.blit(h5.attrs.get("imaging:roi size x", 0) > 500))
+
+
+#: the table the reference must reproduce (software string, extra facts) ->
+#: defective features among aspect/time/volume/inertia (checked at start-up)
+DEFECT_TABLE = [
+    ("verifgen 1.0", {}, set()),
+    ("ShapeIn 2.0.6", {}, {"aspect"}),
+    ("ShapeIn 2.0.7", {}, {"aspect"}),
+    ("ShapeIn 2.0.6 | dclab 0.50.0", {}, set()),
+    ("ShapeIn 2.0.8", {}, set()),
+    ("ShapeIn 2.0.5 | dclab 0.30.0", {}, {"volume", "time"}),
+    ("ShapeIn 2.0.5 | dclab 0.30.0", {"issue141": True}, {"time"}),
+    ("ShapeIn 2.0.5 | dclab 0.30.0", {"noframe": True}, {"volume"}),
+    ("ShapeIn 2.0.5 | dclab 0.47.0", {}, {"time"}),
+    ("ShapeIn 2.0.5 | dclab 0.47.6", {}, set()),
+    ("verifgen 1.0", {"time32": True}, {"time"}),
+    ("verifgen 1.0", {"time32": True, "noframe": True}, set()),
+    ("ShapeIn 2.1.0 | dclab 0.48.0", {"roi": 600},
+     {"inert_ratio_prnc", "tilt"}),
+    ("ShapeIn 2.0.4 | dclab 0.48.2", {"roi": 600},
+     {"inert_ratio_prnc", "tilt", "inert_ratio_raw", "inert_ratio_cvx"}),
+    ("ShapeIn 2.0.4 | dclab 0.48.3", {"roi": 600}, set()),
+    ("ShapeIn 2.0.4 | dclab 0.48.2", {"roi": 400}, set()),
+    ("verifgen 1.0 | dclab 0.48.0", {"roi": 600},
+     {"inert_ratio_prnc", "tilt", "inert_ratio_raw", "inert_ratio_cvx"}),
+]
+
+
+class _FakeDs:
+    def __init__(self, f4):
+        import numpy as np
+        self.dtype = np.dtype("f4" if f4 else "f8")
+
+
+class _FakeH5(dict):
+    pass
+
+
+def ref_selftest():
+    """the reference reproduces the literal table"""
+    for soft, facts, want in DEFECT_TABLE:
+        h5 = _FakeH5()
+        h5.attrs = {"setup:software version": soft, "imaging:frame rate": 2000.,
+                    "imaging:roi size x": facts.get("roi", 9)}
+        ev = {k: _FakeDs(False) for k in DEFECT_NAMES}
+        ev["time"] = _FakeDs(facts.get("time32", False))
+        if not facts.get("noframe"):
+            ev["frame"] = _FakeDs(False)
+        h5["events"] = ev
+        h5["logs"] = {"dclab_issue_141": 1} if facts.get("issue141") else {}
+        got = ref_defective(h5)
+        if got != want:
+            raise AssertionError("defect reference: %r %r -> %r, table says %r"
+                                 % (soft, facts, sorted(got), sorted(want)))
 
 
 def gen_case(rng, thorough=False, force=None):
@@ -141,6 +296,7 @@ def gen_case(rng, thorough=False, force=None):
         kind = rng.choice(["fixed", "fixed", "vlen", "vlen", "empty_vlen",
                            "empty_fixed"])
         logs.append(dict(name="log-%d" % k, kind=kind,
+                         nattrs=rng.choice([0, 0, 1, 2]),
                          lines=rng.randint(1, 6),
                          longest=rng.choice([3, 20, 99, 100, 101, 150]),
                          utf8=rng.random() < 0.3,
@@ -156,7 +312,7 @@ def gen_case(rng, thorough=False, force=None):
                          layout="zstd5_raw"))
     tables = []
     for k in range(rng.choice([0, 0, 1, 1, 2])):
-        tables.append(dict(name="tab-%d" % k, rows=rng.choice([1, 2, 5]),
+        tables.append(dict(name="tab-%d" % k, rows=rng.choice([0, 1, 2, 5]),
                            nattrs=rng.choice([0, 1, 2]),
                            plain=rng.random() < 0.2,
                            layout=rng.choice(["contig", "chunk_eq", "gzip",
@@ -168,18 +324,50 @@ def gen_case(rng, thorough=False, force=None):
             basins.append(dict(
                 type=btype, nfeat=rng.choice([1, 2]),
                 nonscalar=rng.random() < 0.3,
+                nattrs=rng.choice([0, 0, 1]),
                 layout=rng.choice(["writer", "contig", "vlen", "gzip"])))
-    soft = rng.choice(SOFTS) if rng.random() < 0.3 else SOFTS[0]
-    if soft != SOFTS[0]:
-        if not any(f["name"] == "aspect" for f in feats):
-            feats.append(dict(name="aspect", kind="scalar", layout="contig"))
-        if rng.random() < 0.5 and soft == SOFTS[3]:
-            # (defective in the input; with any other version string the
-            # untagged build would make it defective in the output only)
-            feats.append(dict(name="volume", kind="scalar", layout="contig"))
-        # `time` would become defective in the *output* of this untagged
-        # build (dclab 0.0) when a frame feature exists: environment artefact
+    soft = SOFTS[0]
+    scen = None
+    if rng.random() < 0.35:
+        # defective-feature scenarios: (software string, facts) as in
+        # DEFECT_TABLE, with the features the rules talk about present
+        soft, facts, _ = rng.choice(DEFECT_TABLE[1:])
+        scen = dict(facts)
+        have = set(f["name"] for f in feats)
+        want = ["aspect"]
+        if rng.random() < 0.6:
+            want += ["time", "volume"]
+        if facts.get("roi"):
+            want += ["inert_ratio_prnc", "tilt", "inert_ratio_raw",
+                     "inert_ratio_cvx"][:rng.randint(1, 4)]
+            # the ROI width is a metadata fact here: no images
+            feats = [f for f in feats if f["kind"] not in ("image", "mask")]
+        for w in want:
+            if w not in have:
+                feats.append(dict(name=w, kind="scalar",
+                                  layout=rng.choice(["contig", "gzip",
+                                                     "writer"])))
         feats = [f for f in feats if f["name"] != "frame"]
+        if not facts.get("noframe"):
+            feats.append(dict(name="frame", kind="uint", layout="contig"))
+        if facts.get("time32"):
+            for f in feats:
+                if f["name"] == "time":
+                    f["dtype"] = "f4"
+        if facts.get("issue141"):
+            logs = [lg for lg in logs if lg["name"] != "dclab_issue_141"]
+            logs.append(dict(name="dclab_issue_141", kind="fixed", lines=2,
+                             longest=30, utf8=False, layout="contig"))
+        else:
+            logs = [lg for lg in logs if lg["name"] != "dclab_issue_141"]
+    else:
+        # (no accidental marker)
+        logs = [lg for lg in logs if lg["name"] != "dclab_issue_141"]
+        if rng.random() < 0.3:
+            for f in feats:
+                if f["kind"] == "scalar" and f["name"] != "time" \
+                        and rng.random() < 0.5:
+                    f["dtype"] = rng.choice(["f4", "i4", "u2"])
     task = rng.choice(["repack", "repack", "compress", "compress", "condense",
                        "copy"])
     if task == "repack":
@@ -212,7 +400,29 @@ def gen_case(rng, thorough=False, force=None):
         for f in feats:
             if f["kind"] == "trace":
                 f["nested"] = True
+    if n > 0 and scen is None and rng.random() < (0.3 if task == "condense"
+                                                  else 0.06):
+        # no stored scalar feature at all
+        feats = [f for f in feats if f["kind"] not in ("scalar", "uint")]
+        if not feats:
+            feats = [dict(name=rng.choice(["image", "trace"]), kind="x",
+                          layout=rng.choice(LAYOUTS))]
+            feats[0]["kind"] = feats[0]["name"]
+    featureless = False
+    if n > 0 and scen is None and rng.random() < 0.08:
+        # no stored feature at all: everything comes from a file basin
+        # (what ds.export.hdf5(features=[], basins=True) writes)
+        featureless = True
+        feats = []
+        extra = []
+        basins = [dict(type="file", nfeat=rng.choice([1, 2, 3]),
+                       nonscalar=rng.random() < 0.4, nattrs=0,
+                       layout=rng.choice(["writer", "contig", "vlen"]),
+                       nomap=True)]
+    dup = n > 0 and rng.random() < 0.15 and any(
+        b["type"] == "internal" for b in basins)
     case = dict(seed=rng.randint(0, 10 ** 9), n=n, feats=feats, junk=junk,
+                scen=scen, dup_basin_feat=dup, featureless=featureless,
                 drop_stats=drop_stats, extra=extra, logs=logs, tables=tables,
                 basins=basins, soft=soft, task=task, opts=opts)
     case.update(force)
@@ -266,10 +476,11 @@ def layout_kwargs(layout, shape, vlen=False):
     return dict(chunks=small, fletcher32=True, **hdf5plugin.Zstd(clevel=5))
 
 
-def relayout(group, name, layout):
+def relayout(group, name, layout, dtype=None):
     """re-create group[name] (dataset, or every dataset of a group) with the
-    given layout, keeping data and attributes"""
+    given layout (and numeric dtype), keeping data and attributes"""
     import h5py
+    import numpy as np
     obj = group[name]
     if isinstance(obj, h5py.Group):
         for k in list(obj.keys()):
@@ -277,7 +488,13 @@ def relayout(group, name, layout):
         return
     data = obj[()]
     attrs = dict(obj.attrs)
-    dtype = obj.dtype
+    if dtype is not None:
+        if dtype[0] in "iu":
+            data = np.nan_to_num(data, nan=0, posinf=9, neginf=-9)
+            if dtype[0] == "u":
+                data = np.abs(data)
+        data = np.asarray(data).astype(dtype)
+    dtype = data.dtype if dtype is not None else obj.dtype
     shape = obj.shape
     del group[name]
     kw = layout_kwargs(layout, shape, vlen=(dtype.kind == "O"))
@@ -387,6 +604,8 @@ def build_input(case, d, tag="in"):
                     if b["type"] == "mapped":
                         bmap = np.array(sorted(rng.sample(range(m), n)),
                                         dtype=np.uint64)
+                    elif b.get("nomap"):
+                        bmap = None      # same events as the origin
                     else:
                         bmap = np.arange(n, dtype=np.uint64)
                     hw.store_basin(
@@ -403,10 +622,21 @@ def build_input(case, d, tag="in"):
                 if f["kind"] in ("scalar", "uint"):
                     kw = layout_kwargs(f["layout"], (0,))
                     ev.create_dataset(f["name"], shape=(0,), dtype=float, **kw)
+            if rng.random() < 0.5:
+                # empty non-scalar features
+                ev.create_dataset("image", shape=(0, 6, 9), dtype="u1",
+                                  **layout_kwargs(rng.choice(
+                                      ["contig", "chunk_small"]), (0, 6, 9)))
+                tr = ev.create_group("trace")
+                tr.create_dataset("fl1_raw", shape=(0, 12), dtype="i2")
+                # (consistent metadata: the writer rectifies this key from
+                # the trace data whenever it touches a file)
+                h5.attrs["fluorescence:samples per event"] = 12
         else:
             for f in case["feats"]:
-                if f["name"] in ev and f["layout"] != "writer":
-                    relayout(ev, f["name"], f["layout"])
+                if f["name"] in ev and (f["layout"] != "writer"
+                                        or f.get("dtype")):
+                    relayout(ev, f["name"], f["layout"], f.get("dtype"))
             if case["drop_stats"]:
                 for f in case["feats"]:
                     if f["kind"] in ("scalar", "uint") and f["name"] in ev:
@@ -430,6 +660,12 @@ def build_input(case, d, tag="in"):
             ug.attrs["what"] = "unknown group"
             ev.attrs["group attribute"] = "on events"
             h5.attrs["user:verif note"] = "hello %d" % rng.randint(0, 99)
+        if case.get("dup_basin_feat") and "basin_events" in h5:
+            # a feature stored in "events" AND provided by an internal basin
+            for k in list(h5["basin_events"].keys()):
+                if h5["basin_events"][k].ndim == 1 and k not in ev:
+                    ev.create_dataset(k, data=gen.dyadic(rng, nn))
+                    break
         for x in case["extra"]:
             kw = layout_kwargs(x["layout"], (nn,))
             d_ = ev.create_dataset(x["name"], data=gen.dyadic(rng, nn), **kw)
@@ -444,6 +680,8 @@ def build_input(case, d, tag="in"):
                         else "S100"
                     kw = layout_kwargs(spec["layout"], (0,), vlen=True)
                     lg.create_dataset(spec["name"], shape=(0,), dtype=dt, **kw)
+                    for a in range(spec.get("nattrs", 0)):
+                        lg[spec["name"]].attrs["lattr%d" % a] = "empty %d" % a
                     continue
                 lines = make_lines(rng, spec)
                 raw = [s.encode("utf-8") for s in lines]
@@ -458,13 +696,16 @@ def build_input(case, d, tag="in"):
                     lg.create_dataset(
                         spec["name"], data=np.array(raw, dtype="S%d" % w),
                         **layout_kwargs(spec["layout"], (len(lines),)))
+                for a in range(spec.get("nattrs", 0)):
+                    lg[spec["name"]].attrs["lattr%d" % a] = \
+                        ["text", 2.5, 3][rng.randrange(3)]
         if case["tables"]:
             tg = h5.require_group("tables")
             for spec in case["tables"]:
                 rows = spec["rows"]
                 if spec["plain"]:
                     data = np.array([[rng.randint(-9, 9) / 4 for _ in range(3)]
-                                     for _ in range(rows)])
+                                     for _ in range(rows)]).reshape(rows, 3)
                 else:
                     dt = np.dtype([("alpha", "f8"), ("beta", "i8"),
                                    ("gamma", "f4")])
@@ -492,6 +733,9 @@ def build_input(case, d, tag="in"):
                         dtype=h5py.string_dtype())
                 else:
                     relayout(h5["basins"], keys[bi], b["layout"])
+            if bi < len(keys):
+                for a in range(b.get("nattrs", 0)):
+                    h5["basins"][keys[bi]].attrs["battr%d" % a] = "note %d" % a
             if b["type"] == "internal" and "basin_events" in h5 \
                     and b["layout"] != "writer":
                 for k in list(h5["basin_events"].keys()):
@@ -499,8 +743,12 @@ def build_input(case, d, tag="in"):
                         relayout(h5["basin_events"], k,
                                  rng.choice(["contig", "chunk_eq", "gzip"]))
         h5.attrs["setup:software version"] = case["soft"]
+        if (case.get("scen") or {}).get("roi"):
+            h5.attrs["imaging:roi size x"] = case["scen"]["roi"]
         if n == 0:
             h5.attrs["experiment:event count"] = 0
+        if case.get("featureless"):
+            h5.attrs["experiment:event count"] = nn + 4
     return path
 
 
@@ -518,7 +766,7 @@ class Names:
             if not create:
                 return 999
             base = {"attr": 10, "val": 0, "feat": 10, "child": 0, "log": 10,
-                    "table": 10, "basin": 10, "rest": 0}[kind]
+                    "table": 10, "basin": 10, "rest": 0, "dtype": 0}[kind]
             t[name] = base + len(t)
         return t[name]
 
@@ -577,6 +825,9 @@ def obs_dset(ds, names, ref=None, auto_chunks=False, is_output=False):
         chunks = [-1]
     k = ds.dtype.kind
     kind = {"O": 1, "S": 2, "V": 3}.get(k, 0)
+    if kind == 0 and ds.dtype.str != "<f8" and not auto_chunks:
+        # (datasets written by RTDCWriter, `auto_chunks`: dtype is C01's)
+        kind = 100 + names.get("dtype", ds.dtype.str)
     width = int(ds.dtype.itemsize) if k == "S" else 0
     fa = ds.id.get_create_plist().get_filter_by_id(32015)
     zstd = None if fa is None else [int(x) for x in fa[1]]
@@ -783,13 +1034,18 @@ def rows_of(f):
     return sorted(rows)
 
 
-def canon_model_rows(rows):
+def canon_model_rows(rows, content_only=False):
     """sort attributes inside every model row the way enc_dset (Python) does;
-    the model keeps insertion order"""
+    the model keeps insertion order.  content_only: blank the layout fields
+    (chunk shape, string width, filter parameters) and drop the rows about
+    unknown groups / group attributes: the property is about content, the
+    layout the copy chooses is reported but is not a disagreement"""
     out = []
     for r in rows:
         r = list(r)
-        if r[0] == 9:
+        if r[0] in (7, 8) and content_only:
+            continue
+        if r[0] in (7, 8, 9):
             out.append(r)
             continue
         if r[0] == 0:
@@ -808,11 +1064,15 @@ def canon_model_rows(rows):
         rank = d[i]
         i += 1 + rank
         i += 1 if d[i] == -1 else 1 + d[i]
+        i0k = i
         i += 2
         i += 1 if d[i] == -1 else 1 + d[i]
         na = d[i]
         pairs = sorted(zip(d[i + 1:i + 1 + 2 * na:2], d[i + 2:i + 2 + 2 * na:2]))
         d = d[:i + 1] + [x for kv in pairs for x in kv] + d[i + 1 + 2 * na:]
+        if content_only:
+            kind = d[i0k]
+            d = d[:1 + rank] + [-9, kind, -9] + d[i:]
         out.append(head + d)
     return sorted(out)
 
@@ -914,7 +1174,6 @@ def compare_content(case, path_in, path_out, second=False):
     import numpy as np
     import dclab
     from dclab.definitions import feature_exists
-    from dclab.rtdc_dataset.fmt_hdf5 import DEFECTIVE_FEATURES
     from . import gen
     task, opts = case["task"], case["opts"]
     strip_basins = (task == "repack" and opts.get("strip_basins")) or \
@@ -945,10 +1204,11 @@ def compare_content(case, path_in, path_out, second=False):
             sel = "scalar" if task == "condense" else "all"
         ev_in = hi.get("events", {})
         expected = []
+        hidden = ref_defective(hi)
         for name in ev_in:
             if not feature_exists(name):
                 continue
-            if name in DEFECTIVE_FEATURES and DEFECTIVE_FEATURES[name](hi):
+            if name in hidden:
                 continue
             if bm.match(name):
                 if not strip_basins:
@@ -968,7 +1228,11 @@ def compare_content(case, path_in, path_out, second=False):
         if task != "condense":
             for name in ev_out:
                 if name not in expected:
-                    return "feature %s appeared in the output" % name
+                    if name not in ev_in:
+                        return "feature %s appeared in the output" % name
+                    d = raw_equal(ev_in[name], ev_out[name], "events/" + name)
+                    if d:
+                        return d
         # ---- logs
         li = {} if strip_logs else dict(hi.get("logs", {}).items())
         prefix = opts.get("meta_prefix", "") if task == "copy" else ""
@@ -1054,17 +1318,23 @@ def compare_content(case, path_in, path_out, second=False):
                     if f not in bev_out and f not in ev_out:
                         return ("internal basin %s announces feature %s which "
                                 "is nowhere in the output" % (k, f))
-        nothing_to_read = not expected and "events" not in ho
+        nothing_to_read = False
     # ---- through dclab (a file without any recognised, non-defective feature
     # has no events group after the copy and dclab cannot open it: there is
     # nothing to compare beyond the raw comparison above)
     if task in ("repack", "compress") and not nothing_to_read:
         eb = not strip_basins
+        try:
+            with dclab.new_dataset(path_out, enable_basins=eb) as dx:
+                dx.features_innate, len(dx)
+        except Exception as e:
+            return "dclab cannot open the output: %r" % (e,)
         with dclab.new_dataset(path_in, enable_basins=eb) as da, \
                 dclab.new_dataset(path_out, enable_basins=eb) as db:
             fa = [f for f in da.features_innate
-                  if not (strip_basins and bm.match(f))]
-            fb = list(db.features_innate)
+                  if not (strip_basins and bm.match(f))
+                  and f not in DEFECT_NAMES]
+            fb = [f for f in db.features_innate if f not in DEFECT_NAMES]
             if sorted(fa) != sorted(fb):
                 return "dclab: innate features %s -> %s" % (sorted(fa),
                                                            sorted(fb))
@@ -1135,9 +1405,23 @@ def attr_diff(a, b):
             return "attribute %s lost" % k
         if attr_value_key(a.attrs[k]) != attr_value_key(b.attrs[k]):
             return "attribute %s changed" % k
+    import numpy as np
     for k in b.attrs:
-        if k not in a.attrs and k not in ("min", "max", "mean"):
-            return "attribute %s appeared" % k
+        if k not in a.attrs and k in ("min", "max", "mean") \
+                and b.dtype.kind in "fiu" and b.ndim == 1 and b.shape[0]:
+            data = np.asarray(b[()], dtype=float)
+            with np.errstate(all="ignore"):
+                want = {"min": np.nanmin, "max": np.nanmax,
+                        "mean": np.nanmean}[k](data) \
+                    if np.any(~np.isnan(data)) else np.nan
+            got = float(b.attrs[k])
+            # (numpy reduces float32 data in float32)
+            rtol = 1e-5 if (b.dtype.kind == "f" and b.dtype.itemsize < 8) \
+                else 1e-12
+            if not (np.isclose(got, want, rtol=rtol, atol=0, equal_nan=True)
+                    or got == want):
+                return "completed attribute %s = %r, data say %r" % (k, got,
+                                                                     want)
     return None
 
 
@@ -1283,10 +1567,10 @@ def table_bits(case, path_in, names, ci):
     """feature class table of the case (bits, see Model/C08.v)"""
     import h5py
     from dclab.definitions import feature_exists, scalar_feature_exists
-    from dclab.rtdc_dataset.fmt_hdf5 import DEFECTIVE_FEATURES
     bm = re.compile("^basinmap[0-9]*$")
     tbl = []
     with h5py.File(path_in, "r") as h5:
+        hidden = ref_defective(h5)
         for name, fid in sorted(names.tabs.get("feat", {}).items(),
                                 key=lambda kv: kv[1]):
             b = 0
@@ -1299,8 +1583,7 @@ def table_bits(case, path_in, names, ci):
                 raise AssertionError("scalar oracle inconsistent: " + name)
             if bm.match(name):
                 b |= 4
-            if name in DEFECTIVE_FEATURES and name in h5.get("events", {}) \
-                    and DEFECTIVE_FEATURES[name](h5):
+            if name in hidden:
                 b |= 8
             if ci is not None and name in ci["sc"]:
                 b |= 16
@@ -1322,8 +1605,8 @@ def judge(case, d, path_in):
         run_task(case, path_in, path_out)
     except Exception as e:
         fail = "%s raised %r" % (task, e)
-    if fail is None and sha256(path_in) != sha0:
-        fail = "the input file was modified by %s" % task
+    if sha256(path_in) != sha0:
+        fail = "the input file was modified by %s (%s)" % (task, fail)
     if fail is None:
         fail = compare_content(case, path_in, path_out)
     if fail is None and ci is not None:
@@ -1397,8 +1680,12 @@ def judge(case, d, path_in):
                  [fid(x) for x in ci["anc"]]]
         for f, v in ci["vals"].items():
             dsval.append((fid(f), elems_of(v)))
-    rendered = "(mkCase %s %d %s %d %s %s %s %s %s %s)" % (
-        coq_pairs(tbl), tnum, common.blist(flags), sel, common.zlist(lst),
+    with h5py.File(path_in, "r") as hx:
+        facts = defect_facts(hx)
+    defmap = [(names.get("feat", k), v) for k, v in DEFECT_CODES.items()
+              if k in names.tabs.get("feat", {})]
+    rendered = "(mkCase %s %s %s %d %s %d %s %s %s %s %s %s)" % (
+        facts, coq_pairs(defmap), coq_pairs(tbl), tnum, common.blist(flags), sel, common.zlist(lst),
         common.zlist(lists[0]), common.zlist(lists[1]), common.zlist(lists[2]),
         "[" + "; ".join("(%s, [%s])" % (common.zlit(k), "; ".join(
             common.zlist(e) for e in v)) for k, v in dsval) + "]",
@@ -1424,6 +1711,24 @@ def judge(case, d, path_in):
         res["counts"].append("log:%s%s" % (
             {1: "vlen", 2: "fixed"}.get(dd["kind"], "?"),
             "-empty" if dd["shape"][0] == 0 else ""))
+    if case.get("scen") is not None:
+        res["counts"].append("defect-scenario")
+        with h5py.File(path_in, "r") as hx:
+            for x in sorted(ref_defective(hx)):
+                res["counts"].append("defective-in-input:" + x)
+    if not any(f["kind"] in ("scalar", "uint") for f in case["feats"]):
+        res["counts"].append("no-stored-scalar")
+    if case.get("featureless"):
+        res["counts"].append("no-stored-feature(basin-only)")
+    if case.get("dup_basin_feat"):
+        res["counts"].append("feature-in-events-and-basin_events")
+    if any(f.get("dtype") for f in case["feats"]):
+        res["counts"].append("non-f8-scalar-dtype")
+    if task == "repack" and os.path.exists(path_out):
+        # hypothesis of C08_second_copy_changes_no_data
+        with h5py.File(path_out, "r") as hx:
+            if ref_defective(hx):
+                res["counts"].append("second-copy-hypothesis-violated")
     if case.get("junk"):
         res["counts"].append("unknown-group+group-attrs")
     if any(f.get("nested") for f in case["feats"]):
@@ -1491,6 +1796,88 @@ def chunk_check(run, count):
                          what="iter_chunks")
 
 
+def h5ds_check(run, count):
+    """unit tie: the real h5ds_copy on single datasets (n-dimensional data,
+    chunk shapes that do not divide the shape, strings) vs Model.h5ds_copy;
+    model independent: values, dtype and attributes of the copy"""
+    import h5py
+    import numpy as np
+    from dclab.rtdc_dataset.copier import h5ds_copy
+    rng = run.rng
+    path_in = os.path.join(run.scratch, "unit-in.h5")
+    path_out = os.path.join(run.scratch, "unit-out.h5")
+    names = Names()
+    rendered, impl, cases = [], [], []
+    with h5py.File(path_in, "w") as hi, h5py.File(path_out, "w") as ho:
+        for k in range(count):
+            name = "d%d" % k
+            kind = rng.choice(["num", "num", "num", "vlen", "fixed"])
+            if kind == "num":
+                rank = rng.choice([1, 2, 2, 3])
+                shape = tuple(rng.randint(1, 6) for _ in range(rank))
+                dt = rng.choice(["f8", "f4", "i2", "u1", "i8"])
+                data = np.array([rng.randint(0, 200) for _ in range(
+                    int(np.prod(shape)))]).reshape(shape).astype(dt)
+                lay = rng.choice(["contig", "chunk", "chunk", "big", "gzip",
+                                  "zstd5", "zstd1"])
+                kw = {}
+                if lay != "contig":
+                    ch = tuple(rng.randint(1, s_) for s_ in shape)
+                    if lay == "big":
+                        ch = (shape[0] + rng.randint(1, 3),) + ch[1:]
+                        kw["maxshape"] = (None,) + shape[1:]
+                    kw["chunks"] = ch
+                    if lay == "gzip":
+                        kw["compression"] = "gzip"
+                    elif lay in ("zstd5", "zstd1"):
+                        import hdf5plugin
+                        kw.update(hdf5plugin.Zstd(clevel=int(lay[-1])))
+                ds = hi.create_dataset(name, data=data, **kw)
+            else:
+                nl = rng.randint(1, 5)
+                lines = ["".join(rng.choice("abc µ{}") for _ in range(
+                    rng.choice([1, 5, 99, 100, 101, 130]))).strip() or "x"
+                    for _ in range(nl)]
+                kw = {} if rng.random() < 0.5 else dict(chunks=(rng.randint(
+                    1, nl),))
+                if kind == "vlen":
+                    ds = hi.create_dataset(name, data=np.array(
+                        lines, dtype=object), dtype=h5py.string_dtype(), **kw)
+                else:
+                    raw = [x.encode("utf-8") for x in lines]
+                    ds = hi.create_dataset(name, data=np.array(
+                        raw, dtype="S%d" % max(len(x) for x in raw)), **kw)
+            for a in range(rng.choice([0, 1, 2])):
+                ds.attrs["a%d" % a] = rng.choice(["txt", 1.5, 4])
+            case = dict(kind="h5ds_copy", name=name, dtype=str(ds.dtype),
+                        shape=list(ds.shape), chunks=ds.chunks and
+                        list(ds.chunks))
+            try:
+                dst = h5ds_copy(src_loc=hi, src_name=name, dst_loc=ho)
+            except Exception as e:
+                run.record_case(case, True, sample=False)
+                run.oracle_failure(case, "h5ds_copy raised %r" % (e,))
+                continue
+            run.record_case(case, True, sample=False)
+            d = raw_equal(ds, dst, name)
+            if d:
+                run.oracle_failure(case, "h5ds_copy: " + d)
+            rendered.append(coq_dset(obs_dset(ds, names)))
+            impl.append(enc_dset(obs_dset(dst, names, ref=ds,
+                                          is_output=True)))
+            cases.append(case)
+    model = common.coq_map(run.scratch, "c08h", HEADER, "run_h5ds", rendered)
+    for c, m, i in zip(cases, model, impl):
+        run.corr_checked += 1
+        run.count("h5ds_copy-unit")
+        mc = canon_model_rows([[1, 0, -1] + m], content_only=True)
+        ic = canon_model_rows([[1, 0, -1] + i], content_only=True)
+        if mc != ic:
+            run.mismatch(c, m[:60], i[:60], what="h5ds_copy")
+        elif canon_model_rows([[1, 0, -1] + m]) != [[1, 0, -1] + i]:
+            run.count("layout-only-difference")
+
+
 def uint32_check(run):
     """HDF5 conversion of signed values into the uint32 datasets the writer
     uses for fl?_max vs. the model's clamp"""
@@ -1517,18 +1904,104 @@ def uint32_check(run):
 # --------------------------------------------------------------------------
 # tdms2rtdc on the fixtures
 # --------------------------------------------------------------------------
+def tdms_expected(ds, skip_i, skip_f):
+    """Independent reference of the events tdms2rtdc exports: by raw
+    comparison of the first/last image (contour) with zero, NOT by calling
+    cli.common.skip_empty_image_events.  Returns (flags, kept indices)."""
+    import numpy as np
+    n = len(ds)
+    fe = le = False
+    if "image" in ds:
+        try:
+            fe = not np.any(np.asarray(ds["image"][0]))
+        except Exception:
+            fe = False
+        if n - 1 >= len(ds["image"]):
+            # no frame for the last event (the fixtures carry truncated
+            # videos): an empty image by definition; do not touch the reader
+            le = True
+        else:
+            try:
+                le = not np.any(np.asarray(ds["image"][n - 1]))
+            except Exception:
+                le = True
+    if not fe and "contour" in ds:
+        try:
+            fe = not np.any(np.asarray(ds["contour"][0]))
+        except Exception:
+            pass
+    kept = [i for i in range(n)
+            if not (i == 0 and skip_i and fe)
+            and not (i == n - 1 and skip_f and le)]
+    return [bool(skip_i), bool(skip_f), bool(fe), bool(le)], kept
+
+
+def skip_check(run, count):
+    """cli.common.skip_empty_image_events (the event selection of tdms2rtdc)
+    on generated datasets whose first/last images are all zero, partly zero
+    or non-zero, vs. the model's tdms_kept with independently computed flags"""
+    import numpy as np
+    import dclab
+    from dclab.cli import common as clicommon
+    rng = run.rng
+    cases, want = [], []
+    for _ in range(count):
+        n = rng.choice([1, 2, 3, 5, 8])
+        img = np.array(rng.choices(range(1, 255), k=n * 12),
+                       dtype=np.uint8).reshape(n, 3, 4)
+        pats = []
+        for pos in (0, n - 1):
+            pat = rng.choice(["zero", "partial", "nonzero", "onepixel"])
+            if pat == "zero":
+                img[pos] = 0
+            elif pat == "partial":
+                img[pos, 0, :] = 0
+            elif pat == "onepixel":
+                img[pos] = 0
+                img[pos, 1, 2] = 7
+            pats.append(pat)
+        si, sf = rng.random() < 0.7, rng.random() < 0.7
+        ds = dclab.new_dataset({"deform": np.linspace(.01, .02, n),
+                                "area_um": np.linspace(20, 30, n),
+                                "image": img})
+        clicommon.skip_empty_image_events(ds, si, sf)
+        got = [int(i) for i in np.where(ds.filter.all)[0]]
+        fe = not np.any(img[0])
+        le = not np.any(img[n - 1])
+        ref = [i for i in range(n) if not (i == 0 and si and fe)
+               and not (i == n - 1 and sf and le)]
+        case = dict(kind="skip-empty-image", n=n, first=pats[0], last=pats[1],
+                    skip_initial=si, skip_final=sf)
+        run.record_case(case, True, sample=False)
+        if got != ref:
+            run.oracle_failure(case, "skip_empty_image_events keeps %s, a "
+                               "reader of the images expects %s" % (got, ref))
+        cases.append((n, [si, sf, bool(fe), bool(le)]))
+        want.append(got)
+    model = common.coq_map(run.scratch, "c08s", HEADER, "run_tdms",
+                           ["(%d, %s)" % (n, common.blist(fl))
+                            for n, fl in cases])
+    for (n, fl), m, w in zip(cases, model, want):
+        run.corr_checked += 1
+        run.count("skip-empty-image")
+        if m != w:
+            run.mismatch(dict(kind="skip-empty-image", n=n, flags=fl), m, w,
+                         what="skip_empty_image_events")
+
+
 def tdms_check(run):
     import numpy as np
+    import h5py
     import dclab
     from dclab import cli
     from dclab.cli import common as clicommon
-    from . import gen
     import pathlib
     zips = sorted(glob.glob(os.path.join(common.REPO, "tests", "data",
                                          "fmt-tdms_*.zip")))
     if not run.thorough:
         zips = [z for z in zips if "minimal" in z or "2fl-no-image" in z
-                or "shapein-2.0.1" in z]
+                or "fl-image_2016" in z]
+    model_cases, model_want = [], []
     for z in zips:
         d = os.path.join(run.scratch, "tdms-" + os.path.basename(z)[:-4])
         os.makedirs(d, exist_ok=True)
@@ -1537,80 +2010,156 @@ def tdms_check(run):
         tdms = sorted(glob.glob(os.path.join(d, "**", "*.tdms"),
                                 recursive=True))
         tdms = [t for t in tdms if not t.endswith("_traces.tdms")]
+        variants = [(True, True, False), (False, False, False)]
+        if "minimal" in z or run.thorough:
+            variants.append((True, True, True))
         for t in tdms:
-            case = dict(kind="tdms2rtdc", fixture=os.path.basename(z),
-                        file=os.path.basename(t))
-            out = os.path.join(d, "converted.rtdc")
-            sha0 = sha256(t)
-            fail = None
-            try:
-                cli.tdms2rtdc(path_tdms=pathlib.Path(t),
-                              path_rtdc=pathlib.Path(out))
+            for skip_i, skip_f, compute in variants:
+                case = dict(kind="tdms2rtdc", fixture=os.path.basename(z),
+                            file=os.path.basename(t), skip_initial=skip_i,
+                            skip_final=skip_f, compute_features=compute)
+                out = os.path.join(d, "converted.rtdc")
+                sha0 = sha256(t)
+                fail = None
+                try:
+                    fail = tdms_one(t, out, skip_i, skip_f, compute,
+                                    model_cases, model_want)
+                except Exception as e:
+                    fail = "tdms2rtdc raised %r" % (e,)
                 if sha256(t) != sha0:
-                    fail = "tdms input modified"
-                # this untagged build brands its output "dclab 0.0..." which
-                # the reader refuses as too old: re-brand before reading
-                import h5py
-                with h5py.File(out, "a") as hx:
-                    hx.attrs["setup:software version"] = "verif | " + str(
-                        hx.attrs.get("setup:software version", ""))
-                with dclab.new_dataset(t) as ds, dclab.new_dataset(out) as dr:
-                    clicommon.skip_empty_image_events(ds, True, True)
-                    idx = np.where(ds.filter.all)[0]
-                    feats = list(ds.features_innate)
-                    # the fixtures carry truncated videos/contours: the export
-                    # stops at the shortest feature
-                    shortest = min([len(ds)] + [len(ds[f]) for f in feats
-                                                if f in ("image", "mask",
-                                                         "contour")])
-                    idx = idx[idx < shortest]
-                    if len(dr) != len(idx):
-                        fail = "event count %d vs %d" % (len(dr), len(idx))
-                    for f in feats:
-                        if fail:
-                            break
-                        # (raw h5py: this untagged build's "dclab 0.0"
-                        # brand makes dclab hide e.g. inert_ratio_cvx of
-                        # wide-ROI files as defective when re-opening)
-                        with h5py.File(out, "r") as hraw:
-                            present = f in hraw["events"]
-                            rawval = hraw["events"][f][()] if present and \
-                                isinstance(hraw["events"][f], h5py.Dataset) \
-                                and hraw["events"][f].ndim == 1 else None
-                        if not present:
-                            fail = "feature %s missing" % f
-                            break
-                        if f == "trace":
-                            for k in ds["trace"].keys():
-                                a = np.array([ds["trace"][k][i] for i in idx])
-                                if not np.array_equal(a, dr["trace"][k][:]):
-                                    fail = "trace %s differs" % k
-                        elif f in ("image", "mask", "contour"):
-                            for j, i in enumerate(idx[:20]):
-                                if not np.array_equal(np.asarray(ds[f][i]),
-                                                      np.asarray(dr[f][j])):
-                                    fail = "%s event %d differs" % (f, i)
-                                    break
-                        else:
-                            a = np.asarray(ds[f][:])[idx]
-                            b = np.asarray(rawval if rawval is not None
-                                           else dr[f][:])
-                            if not np.array_equal(a, b, equal_nan=True):
-                                fail = "feature %s differs" % f
-                                bad = a != b
-                                if re.match("^fl[123]_max$", f) and \
-                                        np.all(a[bad] < 0) and np.all(b[bad] == 0):
-                                    fail += (" (negative values stored as 0: "
-                                             "uint32 feature)")
-            except Exception as e:
-                fail = "tdms2rtdc raised %r" % (e,)
-            run.record_case(case, True, sample=False)
-            run.count("tdms2rtdc")
-            if fail:
-                run.oracle_failure(case, "tdms2rtdc: " + fail,
-                                   classify(case, fail))
-            if os.path.exists(out):
-                os.unlink(out)
+                    fail = "tdms input modified (%s)" % fail
+                run.record_case(case, True, sample=False)
+                run.count("tdms2rtdc")
+                if fail:
+                    run.oracle_failure(case, "tdms2rtdc: " + fail,
+                                       classify(case, fail))
+                if os.path.exists(out):
+                    os.unlink(out)
+    # the event selection of the real skip_empty_image_events vs the model
+    if model_cases:
+        got = common.coq_map(run.scratch, "c08t", HEADER, "run_tdms",
+                             ["(%d, %s)" % (n, common.blist(fl))
+                              for n, fl in model_cases])
+        for (n, fl), m, w in zip(model_cases, got, model_want):
+            run.corr_checked += 1
+            run.count("tdms-event-selection")
+            if m != w:
+                run.mismatch(dict(kind="tdms-selection", n=n, flags=fl), m, w,
+                             what="skip_empty_image_events")
+
+
+def tdms_one(t, out, skip_i, skip_f, compute, model_cases, model_want):
+    import numpy as np
+    import h5py
+    import pathlib
+    import dclab
+    from dclab import cli
+    from dclab.cli import common as clicommon
+    cli.tdms2rtdc(path_tdms=pathlib.Path(t), path_rtdc=pathlib.Path(out),
+                  compute_features=compute,
+                  skip_initial_empty_image=skip_i,
+                  skip_final_empty_image=skip_f)
+    # this untagged build brands its output "dclab 0.0..." which the reader
+    # refuses as too old: re-brand before reading
+    with h5py.File(out, "a") as hx:
+        hx.attrs["setup:software version"] = "verif | " + str(
+            hx.attrs.get("setup:software version", ""))
+    fail = None
+    with dclab.new_dataset(t) as ds, dclab.new_dataset(out) as dr, \
+            h5py.File(out, "r") as hraw:
+        with dclab.new_dataset(t) as ds3:
+            flags, kept = tdms_expected(ds3, skip_i, skip_f)
+        # tie of the model to the real function (fresh dataset object)
+        with dclab.new_dataset(t) as ds2:
+            clicommon.skip_empty_image_events(ds2, skip_i, skip_f)
+            model_cases.append((len(ds2), flags))
+            model_want.append([int(i) for i in np.where(ds2.filter.all)[0]])
+        feats = list(ds.features_innate)
+        if skip_f and "image" in ds and len(ds) - 1 >= len(ds["image"]):
+            # Fixture artefact: the videos are truncated, so probing the last
+            # event's frame is a read past the end of the video, after which
+            # imageio hands out a zero/stale image for the last frame that
+            # does exist (tdms reader + imageio: trusted, not C08).  The
+            # reference performs the same physical read, nothing else.
+            try:
+                ds["image"][0]
+                ds["image"][len(ds) - 1]
+            except Exception:
+                pass
+        # the fixtures carry truncated videos/contours: the export stops at
+        # the shortest feature
+        shortest = min([len(ds)] + [len(ds[f]) for f in feats
+                                    if f in ("image", "mask", "contour")])
+        idx = np.array([i for i in kept if i < shortest], dtype=int)
+        nout = int(hraw.attrs["experiment:event count"])
+        if nout != len(idx):
+            return "event count %d, expected %d" % (nout, len(idx))
+        for f in feats:
+            if f not in hraw["events"]:
+                return "feature %s missing" % f
+            obj = hraw["events"][f]
+            if f == "trace":
+                for k in ds["trace"].keys():
+                    a = np.array([ds["trace"][k][i] for i in idx])
+                    if not np.array_equal(a, obj[k][()]):
+                        return "trace %s differs" % k
+            elif f in ("image", "mask", "contour"):
+                for j, i in enumerate(idx):
+                    if not np.array_equal(np.asarray(ds[f][i]),
+                                          np.asarray(dr[f][j])):
+                        return "%s event %d differs" % (f, i)
+            else:
+                a = np.asarray(ds[f][:])[idx]
+                b = np.asarray(obj[()])
+                if not np.array_equal(a, b, equal_nan=True):
+                    fail = "feature %s differs" % f
+                    bad = a != b
+                    if re.match("^fl[123]_max$", f) and \
+                            np.all(a[bad] < 0) and np.all(b[bad] == 0):
+                        fail += (" (negative values stored as 0: "
+                                 "uint32 feature)")
+                    return fail
+        if compute:
+            # computed features are stored with the values dclab computes
+            # for the source (NaN-safe comparison, scalar ones)
+            for f in ds.features_scalar:
+                if f in feats or f not in ds.features or f == "index":
+                    continue
+                if f not in hraw["events"]:
+                    return "computed feature %s missing" % f
+                a = np.asarray(ds[f][:], dtype=float)[idx]
+                b = np.asarray(hraw["events"][f][()], dtype=float)
+                if not np.allclose(a, b, rtol=1e-12, atol=0, equal_nan=True):
+                    return "computed feature %s differs" % f
+        # logs of the source are carried over
+        for k in ds.logs.keys():
+            if k not in hraw.get("logs", {}):
+                return "log %s missing" % k
+            got = [x.decode("utf-8") if isinstance(x, bytes) else str(x)
+                   for x in hraw["logs"][k][()]]
+            if [str(x) for x in ds.logs[k]] != got:
+                return "log %s differs" % k
+        # metadata
+        volatile = {"event count", "software version", "roi size x",
+                    "roi size y", "samples per event", "channel count"}
+        for sec in ("experiment", "imaging", "setup", "fluorescence",
+                    "online_contour"):
+            for key, val in dict(ds.config.get(sec, {})).items():
+                if key in volatile:
+                    continue
+                akey = "%s:%s" % (sec, key)
+                if akey not in hraw.attrs:
+                    return "metadata %s missing" % akey
+                got = hraw.attrs[akey]
+                if isinstance(got, bytes):
+                    got = got.decode("utf-8")
+                try:
+                    same = bool(np.all(np.asarray(got) == np.asarray(val)))
+                except Exception:
+                    same = (got == val)
+                if not same:
+                    return "metadata %s: %r -> %r" % (akey, val, got)
+    return None
 
 
 # --------------------------------------------------------------------------
@@ -1626,6 +2175,7 @@ def load_corpus():
 
 def run(run):
     import multiprocessing
+    ref_selftest()
     ncases = 1500 if run.thorough else 100
     cases = [c for c in load_corpus() if "task" in c]
     run.count("corpus", len(cases))
@@ -1664,14 +2214,26 @@ def run(run):
             # the task failed (known finding): only the model's verdict
             m = [r for r in m if r[0] == 9]
         else:
+            mc = canon_model_rows(m, content_only=True)
+            ic = canon_model_rows(i, content_only=True)
             m = canon_model_rows(m)
+            if mc == ic and m != i:
+                # same content, another layout than the model predicts
+                run.count("layout-only-difference")
+                if not any("layout differs" in x for x in run.notes):
+                    diff = [(a[:40], b[:40]) for a, b in zip(m, i) if a != b]
+                    run.notes.append("layout differs from the model (not a "
+                                     "disagreement): %s" % (diff[:1],))
+                continue
         if m != i:
             diff = [(a, b) for a, b in zip(m, i) if a != b][:2]
             run.mismatch(c, dict(rows=len(m), first_diff=common.limited(diff, 1500)),
                          dict(rows=len(i)))
     t_model = time.time() - run.t0
     chunk_check(run, 600 if run.thorough else 100)
+    h5ds_check(run, 400 if run.thorough else 40)
     uint32_check(run)
+    skip_check(run, 300 if run.thorough else 40)
     tdms_check(run)
     run.notes.append("seconds since start: tasks+oracle %.0f, model %.0f, "
                      "chunks+tdms %.0f" % (t_impl, t_model,
@@ -1689,6 +2251,37 @@ def replay(payload):
     if case.get("kind") == "chunks":
         print("chunk case", case)
         return 1
+    if case.get("kind") == "skip-empty-image":
+        import numpy as np
+        import dclab
+        from dclab.cli import common as clicommon
+        n = case["n"]
+        img = np.full((n, 3, 4), 9, dtype=np.uint8)
+        for pos, pat in ((0, case["first"]), (n - 1, case["last"])):
+            if pat == "zero":
+                img[pos] = 0
+            elif pat == "partial":
+                img[pos, 0, :] = 0
+            elif pat == "onepixel":
+                img[pos] = 0
+                img[pos, 1, 2] = 7
+        ds = dclab.new_dataset({"deform": np.linspace(.01, .02, n),
+                                "area_um": np.linspace(20, 30, n),
+                                "image": img})
+        clicommon.skip_empty_image_events(ds, case["skip_initial"],
+                                          case["skip_final"])
+        got = [int(i) for i in np.where(ds.filter.all)[0]]
+        ref = [i for i in range(n)
+               if not (i == 0 and case["skip_initial"] and not img[0].any())
+               and not (i == n - 1 and case["skip_final"]
+                        and not img[n - 1].any())]
+        print("case:", json.dumps(case), "kept", got, "expected", ref)
+        if got != ref:
+            print("FAILS: skip_empty_image_events drops an event whose image "
+                  "is not empty (or keeps an empty boundary image)")
+            return 1
+        print("passes on the current tree")
+        return 0
     d = tempfile.mkdtemp(prefix="verif-c08-replay-", dir=os.environ.get(
         "VERIF_SCRATCH", "/var/tmp"))
     try:
